@@ -224,6 +224,20 @@ func runC01(env *core.Env) {
 		l.State(x, "error")
 		l.Claim(z, "torn")
 		l.State(b, "blocked")
+		// DEP also waits for an epic that IS complete (a verdict taken from the first prerequisite met would be wrong
+		// for one of the two iteration orders), and q waits for a finished-and-pruned task as well as for the blocked one
+		// (cleaning up after the tombstone must take away that one edge only)
+		okE, okT, gone, q := core.IDFor(9818), core.IDFor(9819), core.IDFor(9820), core.IDFor(9810)
+		l.Create(SynItem{ID: okE, Epic: true, Title: "OK (complete)"})
+		l.Create(SynItem{ID: okT, Title: "ok done", In: okE})
+		l.Create(SynItem{ID: gone, Title: "gone: done and pruned"})
+		l.Create(SynItem{ID: q, Title: "q waits for gone and b"})
+		l.Link(dep, okE)
+		l.Link(q, gone)
+		l.Link(q, b)
+		l.State(gone, "done")
+		l.Tombstone(gone)
+		l.State(okT, "done")
 		nothing := core.Store{".ergo/plans.jsonl": l.Bytes(), ".ergo/lock": nil}
 		add("2-claimers/nothing-ready", nothing, claimReq("a1"), claimReq("a2", "--epic", dep))
 	}
